@@ -1317,7 +1317,10 @@ impl<'a> Interp<'a> {
                     if !truthy(&c) {
                         break;
                     }
-                    self.child_stmt(body, 1, path)?;
+                    self.frames.last_mut().unwrap().scopes.push(vec![]);
+                    let r = self.child_stmt(body, 1, path);
+                    self.frames.last_mut().unwrap().scopes.pop();
+                    r?;
                 }
                 return Ok(None);
             }
